@@ -612,6 +612,13 @@ impl Board {
             return false;
         }
 
+        // make sure neither side has more men than a chess set (the move list relies on this)
+        if self.color_combined(Color::White).popcnt() > 16
+            || self.color_combined(Color::Black).popcnt() > 16
+        {
+            return false;
+        }
+
         // make sure there is exactly one white king
         if (self.pieces(Piece::King) & self.color_combined(Color::White)).popcnt() != 1 {
             return false;
